@@ -258,12 +258,16 @@ def case_bijector(case, res):
     rng = rng_for(case["seed"], "c18-bij", case["idx"])
     b = AlgebraicSigmoid()
     n = 400
-    x = np.exp(rng.uniform(np.log(1e-3), np.log(30.0), size=n)) * rng.choice([-1, 1], size=n)
+    xmax = 3e4 if x64 else 30.0
+    x = np.exp(rng.uniform(np.log(1e-3), np.log(xmax), size=n)) * rng.choice([-1, 1], size=n)
     x = np.concatenate([x, [0.0, 1.0, -1.0]])
     xj = jnp.asarray(x, ft)
     y = b.forward(xj)
-    back = np.asarray(b.inverse(y), np.float64)
     xs = np.asarray(xj, np.float64)
+    # the inverse is applied to an array built independently of forward() (TFP caches forward/inverse pairs,
+    # so inverse(forward(x)) on the same object would be answered from the cache)
+    y_indep = jnp.asarray(np.asarray(y).copy())
+    back = np.asarray(AlgebraicSigmoid().inverse(y_indep), np.float64)
     res.mon("bijector_roundtrip", len(x))
     bad = np.where(np.abs(back - xs) > eps * (1 + xs ** 2) * (1 + np.abs(xs)) + 1e-30)[0]
     if len(bad):
@@ -281,7 +285,9 @@ def case_bijector(case, res):
     res.mon("bijector_log_det_jacobian", 2 * len(x))
     lf = np.log(np.abs(np.asarray(fwd, np.float64)))
     tolj = (1e-9 if x64 else 2e-4)
-    bad = np.where(np.abs(fldj - lf) > tolj * (1 + np.abs(lf)))[0]
+    # the autodiff derivative 1/sqrt(1+x^2) - x^2/(1+x^2)^(3/2) cancels: relative error ~ eps * x^2 (oracle conditioning)
+    cond = (2.3e-16 if x64 else 1.2e-7) * 8 * (1 + xs ** 2)
+    bad = np.where(np.abs(fldj - lf) > tolj * (1 + np.abs(lf)) + cond)[0]
     if len(bad):
         i = bad[0]
         res.violation("bijector-fldj", f"forward_log_det_jacobian({xs[i]}) = {fldj[i]}, log|f'(x)| = {lf[i]}", {"x": float(xs[i]), "x64": x64})
@@ -295,8 +301,9 @@ def case_bijector(case, res):
         res.violation("bijector-ildj", f"inverse_log_det_jacobian({float(yq[i])}) = {ildj[i]}, log|g'(y)| = {li[i]}", {"x64": x64})
     # consistency fldj(x) = -ildj(f(x))
     ild2 = np.asarray(b.inverse_log_det_jacobian(y, event_ndims=0), np.float64)
-    sel = np.abs(xs) < 5
-    if np.any(np.abs(fldj[sel] + ild2[sel]) > (1e-8 if x64 else 2e-3)):
+    ild2 = np.asarray(AlgebraicSigmoid().inverse_log_det_jacobian(y_indep, event_ndims=0), np.float64)
+    sel = np.abs(xs) < (1e3 if x64 else 5)
+    if np.any(np.abs(fldj[sel] + ild2[sel]) > (1e-6 * (1 + xs[sel] ** 2) if x64 else 2e-3)):
         res.violation("bijector-ldj-consistency", "forward and inverse log-det-Jacobians are not negatives of each other", {"x64": x64})
     res.evals = len(x)
     res.nontriv(("bij", case["idx"], x64))
@@ -418,9 +425,50 @@ def case_copula_batch(case, res):
     res.sample = w
 
 
+def case_mvn_batch_sample(case, res):
+    """Sampling from a *batch* of precisions with very different scales: every member's samples must lie in
+    its range space and have its own pseudo-inverse as covariance."""
+    import jax
+    import jax.numpy as jnp
+    from liesel.distributions import MultivariateNormalDegenerate as MVND
+
+    rng = rng_for(case["seed"], "c18-mvnb", case["idx"])
+    m = int(rng.integers(3, 7))
+    K = diff_penalty(m, int(rng.choice([1, 2])))
+    r = int(np.linalg.matrix_rank(K))
+    vars_ = np.array([1e-3, 1.0, 1e2]) * float(np.exp(rng.uniform(-1, 1)))
+    loc = rng.normal(size=m)
+    n = case["n"]
+    d = MVND.from_penalty(jnp.asarray(loc, jnp.float64), jnp.asarray(vars_, jnp.float64), jnp.asarray(K, jnp.float64), rank=r)
+    s = np.asarray(d.sample(n, seed=jax.random.PRNGKey(int(rng.integers(2 ** 31 - 1)))), np.float64)
+    w = {"m": m, "rank": r, "vars": vars_.tolist(), "n": n}
+    res.mon("mvn_samples_in_range_space")
+    if s.shape != (n, 3, m):
+        res.violation("mvn-sample-shape", f"batched sample shape {s.shape}, expected {(n, 3, m)}", w)
+        return
+    lamK, Q = np.linalg.eigh(K)
+    order = np.argsort(lamK)[::-1]
+    Qr, lam_r, Q0 = Q[:, order[:r]], lamK[order[:r]], Q[:, order[r:]]
+    for j, v in enumerate(vars_):
+        sc = s[:, j, :] - loc
+        if np.abs(sc @ Q0).max() > 1e-8 * (1 + np.abs(sc).max()):
+            res.violation("mvn-sample-nullspace", f"batch member {j}: samples leave the range space", w)
+        y = (sc @ Qr) * np.sqrt(lam_r / v)
+        zs = [(np.mean(y[:, i] ** 2) - 1) * np.sqrt(n / 2) for i in range(r)] + [y[:, i].mean() * np.sqrt(n) for i in range(r)]
+        res.mon("mvn_sample_covariance", len(zs))
+        if max(abs(z) for z in zs) > 6:
+            res.violation("mvn-sample-covariance", f"batch member {j} (variance {v:.3g}): samples do not have covariance var*pinv(K): "
+                          f"z-scores up to {max(abs(z) for z in zs):.1f}; sample variances along eigen-directions "
+                          f"{np.round(np.var(sc @ Qr, axis=0), 6).tolist()} vs {np.round(v / lam_r, 6).tolist()}", w)
+    res.nontriv(("mvnb", case["idx"]))
+    res.sample = w
+
+
 def gen_cases(tier, seed):
     q = tier == "quick"
     cases = []
+    for i in range(6 if q else 60):
+        cases.append({"kind": "mvnb", "idx": i, "seed": seed, "x64": True, "n": 20000, "cost": 2})
     for i in range(20 if q else 200):
         cases.append({"kind": "copb", "idx": i, "seed": seed, "x64": bool((i // 5) % 2), "cost": 1})
     for i in range(160 if q else 3000):
@@ -438,5 +486,5 @@ def gen_cases(tier, seed):
 def run_case(case):
     res = CaseResult(case)
     res.evals = 1
-    {"mvn": case_mvn, "mvns": case_mvn_sample, "bij": case_bijector, "cop": case_copula, "copb": case_copula_batch}[case["kind"]](case, res)
+    {"mvn": case_mvn, "mvns": case_mvn_sample, "bij": case_bijector, "cop": case_copula, "copb": case_copula_batch, "mvnb": case_mvn_batch_sample}[case["kind"]](case, res)
     return res
